@@ -302,6 +302,29 @@ func VerifC14_PubSub() {
 			vpAssert(cnt == 1, "channels-lists-subscribed-channel-once")
 		}
 		vpAssert(len(chans) == len(vpKeys(distinct)), "channels-lists-nothing-else")
+		// PUBSUB CHANNELS <pattern>: the distinct channels matching the pattern, asked twice (a query must not leave
+		// anything behind that stops the next one)
+		for round := 0; round < 2; round++ {
+			pat := "a*"
+			if round == 1 {
+				pat = "*"
+			}
+			got := ps.ChannelsWithPatterns(pat)
+			wantN := 0
+			for _, ch := range vpKeys(distinct) {
+				if vpMatches(pat, ch) {
+					wantN++
+					cnt := 0
+					for _, x := range got {
+						if x == ch {
+							cnt++
+						}
+					}
+					vpAssert(cnt == 1, "channels-with-pattern-lists-matching-channel-once")
+				}
+			}
+			vpAssert(len(got) == wantN, "channels-with-pattern-lists-nothing-else")
+		}
 		pats := map[string]bool{}
 		for c := 0; c < 2; c++ {
 			for _, p := range vpKeys(ref[c].pat) {
